@@ -187,3 +187,29 @@ Example expendable_nonvacuous :
   s_expendable (git_status ex_store ex_g0 false 0 (RBranch 0)) = true /\
   s_expendable (git_status ex_store ex_guser false 0 (RBranch 0)) = false.
 Proof. split; vm_compute; reflexivity. Qed.
+
+(* project level non-vacuity: build, user commit + dirty file; the recipe then pins an older commit on
+   the branch (switch refused by the reset --keep guard -> attic), followed by clean --attic, clean -s
+   and a --clean-checkout build from another repository: both objects are in the attic directory *)
+Definition ex_ops1 : list op :=
+  [OBuild false ex_up [(0, [SGit 0 (RBranch 0) [1]])]; OUser 0 [1] (UCommit 4); OUser 0 [1] (UWrite 11 31)].
+Definition ex_ops2 : list op :=
+  [OBuild false ex_up [(0, [SGit 0 (RCommitOn 0 2) [1]])]; OCleanAttic; OCleanSrc []; OBuild true ex_up [(0, [SGit 1 (RBranch 0) [1]])]].
+Example user_objects_monotone_nonvacuous :
+  holds_P ex_store (run_ops ex_store [] ex_ops1) (OCommit 4) /\
+  holds_P ex_store (run_ops ex_store [] ex_ops1) (OFile 11 31) /\
+  exists w a g, aget (run_ops ex_store [] (ex_ops1 ++ ex_ops2)) 0 = Some w /\ w_attic w = [a] /\
+                pget a [] = Some (NGit g) /\ aget (g_branches g) 0 = Some 4 /\ aget (g_wt g) 11 = Some 31.
+Proof.
+  split; [|split].
+  - exists 0. eexists. split; [vm_compute; reflexivity|].
+    eexists. split; [left; exists [1]; vm_compute; reflexivity|].
+    split.
+    + exists (mkC (Some 3) [(0, 23); (1, 22); (10, 30)] true). split; reflexivity.
+    + exists 4. split; [left; exists 0; vm_compute; reflexivity|apply R_refl].
+  - exists 0. eexists. split; [vm_compute; reflexivity|].
+    eexists. split; [left; exists [1]; vm_compute; reflexivity|].
+    split; vm_compute; [reflexivity|discriminate].
+  - eexists. eexists. eexists. split; [vm_compute; reflexivity|]. split; [reflexivity|].
+    split; [vm_compute; reflexivity|]. split; vm_compute; reflexivity.
+Qed.
